@@ -81,6 +81,13 @@ func ProductSpecs(tier string) []*ProductSpec {
 	add("n256down-n48up",
 		func() *Universe { return pU8("N256@38", FanSpec{Hold: 38, Extra: 11, Present: np, Absent: na, Fill: 52}) },
 		func() *Universe { return pAlpha("N48@48", FanSpec{Hold: 48, Present: na, Absent: np, Path: P12, Fill: 52}, "[]byte") })
+	// the released node carries a compressed path, the acquiring node has none (and vice versa above)
+	add("n256down-path/n48up-nopath",
+		func() *Universe { return pAlpha("N256@38p", FanSpec{Hold: 38, Extra: 11, Present: np, Absent: na, Path: "pp", Fill: 52}, "string") },
+		func() *Universe { return pU8("N48@48", FanSpec{Hold: 48, Present: na, Absent: np, Fill: 52}) })
+	add("n48down-path/n16up-nopath",
+		func() *Universe { return pAlpha("N48@13p", FanSpec{Hold: 13, Extra: 6, Present: np, Absent: na, Path: P12, Fill: 52}, "string") },
+		func() *Universe { return pU8("N16@16", FanSpec{Hold: 16, Present: na, Absent: np, Fill: 52}) })
 	// node16 released (after having been full), node4/node16 churn in the other trees
 	add("n16down-n4up",
 		func() *Universe { return pF64("N16@4full", FanSpec{Hold: 4, Extra: 12, Present: np, Absent: na, Fill: 20}) },
